@@ -4,7 +4,7 @@ Ltac Zify.zify_post_hook ::= Z.div_mod_to_equations.
 
 Ltac idiv_tac a b Ha Hb Hc Hm checked :=
   unfold in_ity, imin, imax in Ha, Hb; cbn in Ha, Hb;
-  unfold h_idiv; unfold c_eq, c_cmp, lit; cbn [fst snd isigned ibits];
+  unfold h_idiv, h_idiv_rest; unfold c_eq, c_cmp, lit; cbn [fst snd isigned ibits];
   eval_uac; unfold c_truth; cbn [snd]; drop_cwrap b;
   match goal with |- context [cwrap ?t (-1)] => let u := eval vm_compute in (cwrap t (-1)) in change (cwrap t (-1)) with u end;
   destruct (b =? -1) eqn:E1; cbn [negb Z.eqb];
@@ -27,7 +27,7 @@ Qed.
 
 Ltac imod_tac a b Ha Hb Hc Hm checked :=
   unfold in_ity, imin, imax in Ha, Hb; cbn in Ha, Hb;
-  unfold h_imod; unfold c_eq, c_cmp, lit; cbn [fst snd isigned ibits];
+  unfold h_imod, h_imod_rest; unfold c_eq, c_cmp, lit; cbn [fst snd isigned ibits];
   eval_uac; unfold c_truth; cbn [snd]; drop_cwrap b;
   match goal with |- context [cwrap ?t (-1)] => let u := eval vm_compute in (cwrap t (-1)) in change (cwrap t (-1)) with u end;
   destruct (b =? -1) eqn:E1; cbn [negb Z.eqb];
